@@ -66,6 +66,10 @@ fn shape_query(rng: &mut Rng, lang: &str, lobj: &Lang, recs: &[Rec], which: Whic
             let wi = tok.words.len() - 1 - rng.below(3);
             return s(word_chars(&tok, wi));
         }
+        // ... or type the whole title (every one of its words is matched; more than 255 of them now and then)
+        if tok.words.len() > 64 && rng.chance(1, 2) {
+            return title.clone();
+        }
     }
     match rng.below(12) {
         0 => String::new(),
@@ -401,6 +405,9 @@ impl Shape {
                                 }
                                 if spans.len() >= 2 {
                                     cx.count("hit with 2+ spans");
+                                }
+                                if spans.len() > 255 {
+                                    cx.count("hits with more than 255 highlighted words");
                                 }
                                 if spans.len() > tq.words.len() {
                                     cx.count("joined-record split (more spans than query words)");
@@ -861,7 +868,7 @@ impl Prop for Shape {
         match self.0 {
             Which::Titles => vec![("hit with span", 2000, 20000), ("hit whose title needed composition", 50, 500), ("hit with expanding letter", 50, 500), ("hit whose title has NUL", 30, 300), ("hit whose title contains marker text", 50, 500), ("bridge searches with hits", 200, 2000), ("empty-query searches", 100, 1000), ("stores cleared and refilled before a search", 1000, 10000), ("stores of 70-150 records with one very long title", 100, 5000)],
             Which::Related => vec![("hit with fuzzy span", 200, 2000), ("hit with joined-record spans", 20, 200), ("exact-prefix case", 2000, 20000), ("exact-prefix ending inside an expanded letter", 5, 50), ("corpus-store searches", 300, 8000), ("corpus-store searches with more than 8 query words", 50, 1200), ("big-catalogue searches", 100, 1000), ("registry searches", 3000, 30000), ("stores with a 16-bit look-alike gram pair", 100, 1000), ("stores cleared and refilled before a search", 1000, 10000), ("session searches on one store", 600000, 4000000), ("session hits judged", 60000, 400000)],
-            Which::Markup => vec![("hit with 2+ spans", 500, 5000), ("stores cleared and refilled before a search", 1000, 10000), ("joined-record split (more spans than query words)", 20, 200), ("hit of separator-only query", 200, 2000), ("span in title with padding", 30, 300), ("joined-with-typos hits with 2+ spans and typos", 2000, 100000), ("stores with opening and closing markers of different lengths", 1000, 10000)],
+            Which::Markup => vec![("hit with 2+ spans", 500, 5000), ("stores cleared and refilled before a search", 1000, 10000), ("joined-record split (more spans than query words)", 20, 200), ("hit of separator-only query", 200, 2000), ("span in title with padding", 30, 300), ("joined-with-typos hits with 2+ spans and typos", 2000, 100000), ("stores with opening and closing markers of different lengths", 1000, 10000), ("hits with more than 255 highlighted words", 100, 1000)],
         }
     }
     fn run(&self, cx: &mut Cx, stream: &str, idx: u64) {
